@@ -594,6 +594,47 @@ def run(ctx):
                     np.abs(xa - cref).max() if xa.shape == cref.shape else np.inf, np.abs(xa - xb).max() if xa.shape == xb.shape else np.inf, tol), replay, True)
         except Exception as ex:
             ctx.violation('l2-raise', 'project_L2(f_physical=True) raised %s' % type(ex).__name__, dict(replay, error=str(ex)[:200]), True)
+    # ------------------------------------------------------------ call histories: unrelated assembling calls in between must not change results
+    nhist = 20 if quick else 150
+    for it in range(nhist):
+        dim = int(rng.choice([1, 1, 2]))
+        kvs = tuple(rand_kv(rng, bspline, pmax=3, maxspans=3) for _ in range(dim))
+        nd = tuple(kv.numdofs for kv in kvs)
+        coef = rng.integers(-8, 9, size=nd) / 8.0
+        f = bspline.BSplineFunc(kvs, coef)
+        wc = [float(rng.integers(1, 4)), float(rng.integers(1, 4))]
+        w = lambda x, wc=wc: wc[0] + wc[1] * (x - x.min() if hasattr(x, 'min') else x) ** 2        # a positive weight function
+        ctx.case(('history', tuple((kv.p, kv.kv.tobytes()) for kv in kvs), coef.tobytes(), tuple(wc))); ctx.count('stream=call-history')
+        replay = {'mode': 'call-history', 'kvs': [(kv.p, kv.kv.tolist()) for kv in kvs], 'coeffs': coef.tolist(), 'weight': 'x -> %g + %g*(x - min x)^2' % tuple(wc)}
+        try:
+            arg = kvs if dim > 1 else kvs[0]
+            x0 = np.asarray(approx.project_L2(arg, f))
+            i0 = np.asarray(approx.interpolate(arg, f))
+            b0 = np.asarray(assemble.inner_products(kvs, f))
+            m0 = [assemble.mass(kv).toarray() for kv in kvs]
+            # unrelated calls on the same meshes: weighted mass / stiffness matrices, other quadrature orders
+            for kv in kvs:
+                assemble.bsp_mass_1d(kv, weightfunc=w)
+                if kv.p >= 1:
+                    assemble.bsp_stiffness_1d(kv, weightfunc=w)
+                assemble.bsp_mixed_deriv_biform_1d(kv, 0, 0, nqp=kv.p + 1, weightfunc=w)
+                bspline.load_vector(kv, lambda X: 1.0 + X)
+            x1 = np.asarray(approx.project_L2(arg, f))
+            i1 = np.asarray(approx.interpolate(arg, f))
+            b1 = np.asarray(assemble.inner_products(kvs, f))
+            m1 = [assemble.mass(kv).toarray() for kv in kvs]
+            Ms = [assemble.mass(kv).toarray() for kv in kvs]
+            tol = 256.0 * coef.size * EPS * float(np.prod([cond_inf(M) for M in m0])) * max(1.0, float(np.abs(coef).max()))
+            what = None
+            if not (np.array_equal(x0, x1) and np.array_equal(i0, i1) and np.array_equal(b0, b1) and all(np.array_equal(a, b) for a, b in zip(m0, m1))):
+                what = 'results change after unrelated weighted assembling calls on the same mesh: |dx| = %g (project_L2), |db| = %g (inner_products), |dM| = %g (mass)' % (
+                    np.abs(x0 - x1).max(), np.abs(b0 - b1).max(), max(np.abs(a - b).max() for a, b in zip(m0, m1)))
+            elif x1.shape != coef.shape or np.abs(x1 - coef).max() > tol:
+                what = 'project_L2 after the intermediate calls does not reproduce the space element: error %g > %g' % (np.abs(x1 - coef).max(), tol)
+            if what:
+                ctx.violation('history:assembling', what, replay, True)
+        except Exception as ex:
+            ctx.violation('history:assembling', 'call history raised %s: %s' % (type(ex).__name__, str(ex)[:150]), replay, True)
     # ------------------------------------------------------------ geometry scales over many decades (powers of two: scaling is exact)
     nsc = 24 if quick else 200
     for it in range(nsc):
